@@ -644,6 +644,11 @@ impl<'a> Read<'a> for StrRead<'a> {
         self.delegate.parse_r6rs_str_bytes(scratch, |_, bytes| {
             // The input is assumed to be valid UTF-8 and the \x-escapes are
             // checked along the way, so don't need to check here.
+            #[cfg(feature = "verif-hooks")]
+            assert!(
+                str::from_utf8(bytes).is_ok(),
+                "verif: ill-formed UTF-8 at StrRead::parse_r6rs_str"
+            );
             Ok(unsafe { str::from_utf8_unchecked(bytes) })
         })
     }
@@ -662,6 +667,11 @@ impl<'a> Read<'a> for StrRead<'a> {
         self.delegate.parse_symbol_bytes(scratch, |_, bytes| {
             // The input is assumed to be valid UTF-8 and the \u-escapes are
             // checked along the way, so don't need to check here.
+            #[cfg(feature = "verif-hooks")]
+            assert!(
+                str::from_utf8(bytes).is_ok(),
+                "verif: ill-formed UTF-8 at StrRead::parse_symbol"
+            );
             Ok(unsafe { str::from_utf8_unchecked(bytes) })
         })
     }
